@@ -19,6 +19,7 @@ import (
 	"fmt"
 	"reflect"
 	"strconv"
+	"strings"
 	"sync"
 	"sync/atomic"
 	"testing"
@@ -102,12 +103,17 @@ func c06bSetup(t *testing.T, run *vlib.Run, c *c06Case) *c06bEnv {
 		e.written[id] = map[string]bool{}
 	}
 	vs := newVStore(t)
-	vs.logOn.Store(false)
 	rt := vs.NewRestTester(t, &RestTesterConfig{GuestEnabled: false})
 	t.Cleanup(rt.Close)
 	e.srv = &c06Peer{name: "server", rt: rt, vs: vs}
 	rt.CreateUser("c06bob", []string{"*"})
 	p := e.srv
+	p.vs.SetFault(func(op *base.VerifOp, _ string) base.VerifDecision {
+		if _, mine := p.inHook.Load(op.Gid); mine {
+			p.hookOps.Store(op.N, true)
+		}
+		return base.VerifDecision{}
+	})
 	p.vs.SetMid(func(op *base.VerifOp, _ string) error {
 		if !p.midArmed.Load() || op.Gid == e.harness || !e.isDocKey(op.Key) {
 			return nil
@@ -266,6 +272,14 @@ func (e *c06bEnv) push() (revsSent int, ok bool) {
 	return n, true
 }
 
+func (e *c06bEnv) clientState() string {
+	var parts []string
+	for _, id := range e.docIDs {
+		parts = append(parts, id+"="+e.clientDoc(id).fp())
+	}
+	return strings.Join(parts, " ; ")
+}
+
 func (e *c06bEnv) pushedRevs() int {
 	n := 0
 	for _, m := range e.btc.pushReplication.GetMessages() {
@@ -301,7 +315,7 @@ func (e *c06bEnv) pull() (revs int, ok bool) {
 		revs = e.revsPulled
 		e.mu.Unlock()
 		if done {
-			e.tr("client: pull completed (%d rev messages received)", revs)
+			e.tr("client: pull completed (%d rev messages received); client now holds %s", revs, e.clientState())
 			return revs, true
 		}
 		if time.Now().After(deadline) {
@@ -425,21 +439,20 @@ func (e *c06bEnv) runCase() {
 			return
 		}
 		before := e.fpB()
-		e.srv.vs.ResetLog()
-		e.srv.vs.logOn.Store(true)
+		n0 := e.harvest(e.srv)
 		pulled, ok1 := e.pull()
 		pushed, ok2 := 0, true
 		if ok1 {
 			pushed, ok2 = e.push()
 		}
-		e.srv.vs.logOn.Store(false)
+		e.harvest(e.srv)
 		if !ok1 || !ok2 {
 			e.run.Inconclusive("blip: a pull / push of the final rounds did not complete within the watchdog")
 			return
 		}
 		rd := round{Round: r, RevsPulled: pulled, RevsPushed: pushed, Changed: before != e.fpB()}
-		for _, op := range e.srv.vs.Log() {
-			if c06IsDocWrite(op) && op.Applied && e.isDocKey(op.Key) {
+		for _, op := range e.srv.opsCopy()[n0:] {
+			if op.Applied {
 				rd.DocWrites = append(rd.DocWrites, fmt.Sprintf("%s(%s) cas %d->%d", op.Kind, op.Key, op.CasIn, op.CasOut))
 			}
 		}
@@ -543,6 +556,11 @@ func TestVerif_C06_Blip(t *testing.T) {
 					// registered first = runs last: the slot is free only after the case's buckets went back to the pool
 					t.Cleanup(func() { <-sem })
 					e := c06bSetup(t, run, c)
+					t.Cleanup(func() {
+						if t.Failed() {
+							t.Logf("C06 blip case %d (%s) failed inside the test client; trace:\n%s", c.Index, c.Proto, strings.Join(e.traceCopy(), "\n"))
+						}
+					})
 					run.Eval()
 					run.Count("cases_"+proto, 1)
 					if c.Index < 2 {
